@@ -1565,7 +1565,7 @@ fn generate(tier: &str, seed: u64) -> (Vec<String>, BTreeMap<String, u64>) {
     }
 
     // --- random sequences over up to three concurrent labels
-    let n_random = if thorough { 2500 } else { 170 };
+    let n_random = if thorough { 8000 } else { 170 };
     for _ in 0..n_random {
         let mut ops: Vec<String> = Vec::new();
         let pwb = rng.range(1, 2);
